@@ -124,6 +124,7 @@ type Worker struct {
 	sql        *sqlDB
 	sqlCache   map[string]*sqlStmt
 	sqlRows    map[*Obj]*sqlRowsState
+	sqlTx      map[*Obj]*sqlTxState
 	cur        *frame
 }
 
@@ -463,6 +464,7 @@ func (w *Worker) RunPath(entry *ssa.Function, prefix []Decision) (res *PathResul
 	w.probeIn = false
 	w.sql = nil
 	w.sqlRows = map[*Obj]*sqlRowsState{}
+	w.sqlTx = map[*Obj]*sqlTxState{}
 	if w.sqlCache == nil {
 		w.sqlCache = map[string]*sqlStmt{}
 	}
